@@ -11,8 +11,11 @@ PROP = {'engine': 'pn',
                  'GetPulseTimeAux-sweep theorems (inv_preserved_gpt_sweep, gpt_sweep_settles, wakeup_never_late, due_nodes_reachable) assume the '
                  'discipline verdict of managerGptC: no GetPulseTime callback invalidates/detaches/attaches a node whose own GetPulseTimeAux is in '
                  'progress (any other node may be invalidated, attached, detached); public operations and the pulse sweep need no discipline',
-                 'still partial: fires_iff_due completeness (reachability proved, the sweep induction not), wakeup_is_min exactness (false when a '
-                 'callback supersedes an answer within one sweep), reasked visiting, termination (fuel)',
+                 'fires_iff_due (completeness) additionally assumes that the Pulse callbacks of that sweep only change requests (PQuiet) and t < '
+                 'MUSCLE_TIME_NEVER; reasked / all_asked_after_sweep assume the sweep discipline and the flagging invariant V (proved for public '
+                 'operations and the pulse sweep); each discipline has a necessity witness (examples at the end of Props/C20.lean)',
+                 'still partial: wakeup_is_min exactness (>=; false when a callback supersedes an answer within one sweep; needs acyclicity for the '
+                 'witness node), termination (only fuel-independence of results; needs acyclicity + a measure)',
                  'now < MUSCLE_TIME_NEVER for "fires iff due"; no attachment that closes a cycle (the harness refuses it)'],
  'rule': 'random histories over a pool of 16 scripted PulseNodes (attach/detach/destroy/invalidate/change request, scripts of re-entrant actions for '
          'GetPulseTime and Pulse callbacks, then for each event-loop cycle: CallGetPulseTimeAux on every root, a simulated wait, CallPulseAux on every root); '
